@@ -15,7 +15,7 @@ ID = 'C18'
 LEVEL = 'exploration'
 RULE = ('Engine A: lattice of experiment frames with cooldown: 4 shapes x n_pre in {3 (one residual degree of freedom),4,6,10} x n_test in {1,2,4} x cooldown in '
         '{1,2} x control swing in the test period in {0, 20, 80, 240} (so that the reference cumulative scale decreases) x '
-        'unassigned-period dates in {none, lead, gap, trail} x cost scenario in {fixed, variable, treatment-pre-cost-only (control never spends: slope-free cost regression)} x metric in {response, cost} x '
+        'unassigned-period dates in {none, lead, gap, trail} x cost scenario in {fixed, variable, treatment-pre-cost-only (control never spends: slope-free cost regression), low-spend (the fitted line predicts negative spend on some dates)} x metric in {response, cost} x '
         'level in {0.6,0.8,0.9,0.95} x tails x object state in {fresh, already fitted to ANOTHER experiment and asked for all reports}. Oracle: the call succeeds; lower <= estimate <= upper on every date for all three '
         'series; counterfactual + pointwise = observed treatment series; pre-period pointwise = reference OLS residuals; last '
         'cumulative row = incremental effect and the reference quantiles; series cover exactly the analysed dates. Known '
@@ -32,7 +32,7 @@ def cases(tier, seed):
     for sh, npre, ntest, ncool in itertools.product(frames.SHAPES[:4], (3, 4, 6, 10), (1, 2, 4), (1, 2)):
         for swing in (0, 20, 80, 240):
             for extra in (None, 'lead', 'gap', 'trail'):
-                for scen in ('fixed', 'variable', 'treatment-pre-cost-only'):
+                for scen in ('fixed', 'variable', 'treatment-pre-cost-only', 'low-spend'):
                     combos = [(m, l, t) for m in ('tbr_response', 'tbr_cost') for l in (0.6, 0.8, 0.9, 0.95) for t in (1, 2)]
                     if not thorough:
                         k = (npre + ntest + ncool + swing // 20 + (0 if extra is None else len(extra))) % 4
